@@ -17,7 +17,9 @@
 //
 // Keys: class c = (name n<c%4>, label set c/4); different classes are different keys. Variants of a class
 // are ==-equal keys built differently (owned / static+lazy hash / Arc name + reversed labels /
-// with_extra_labels rotation / clone of an unhashed static key / from_static_labels reversed).
+// with_extra_labels rotation / clone of an unhashed static key / from_static_labels reversed); label sets
+// include two labels sharing a name (== in either order), identical labels, and same-name pairs inside
+// three labels (NOT == when swapped: separate classes whose variants keep the label order).
 use metrics::{CounterFn, GaugeFn, HistogramFn, Key, Label, SharedString};
 use metrics_util::registry::{Registry, Storage};
 use std::collections::HashMap;
@@ -93,6 +95,15 @@ fn label_pairs(set: u32) -> Vec<(String, String)> {
         4 => vec![p("a", "2")],
         5 => vec![p("b", "2"), p("a", "2")],
         6 => vec![p("a", ""), p("", "a")],
+        // two labels sharing a NAME, different values: == in either order (PartialEq's two-label arm)
+        7 => vec![p("host", "a"), p("host", "b")],
+        // two identical labels
+        8 => vec![p("a", "1"), p("a", "1")],
+        // same-name pair inside a 3-label key: NOT == when the pair is swapped (stable sort by name), so the
+        // two orders are two classes and their variants never reorder the labels
+        9 => vec![p("h", "a"), p("h", "b"), p("z", "1")],
+        10 => vec![p("h", "b"), p("h", "a"), p("z", "1")],
+        11 => vec![p("host", "b"), p("host", "c")],
         l => {
             let mut v = vec![p("a", &l.to_string()), p("b", "x"), p("c", "y"), p("d", "z")];
             if l % 2 == 0 {
@@ -105,9 +116,19 @@ fn label_pairs(set: u32) -> Vec<(String, String)> {
     }
 }
 
+fn permutable(pairs: &[(String, String)]) -> bool {
+    // may the labels be supplied in another order without changing the key (==)?
+    let mut names: Vec<&String> = pairs.iter().map(|(a, _)| a).collect();
+    names.sort();
+    names.dedup();
+    pairs.len() <= 2 || names.len() == pairs.len()
+}
+
 fn canon(name: &str, pairs: &[(String, String)]) -> String {
-    let mut v: Vec<String> = pairs.iter().map(|(a, b)| format!("{}\u{1}{}", a, b)).collect();
-    v.sort();
+    // mirrors Key's ==: two labels compare as an unordered pair; three or more after a STABLE sort by name
+    let mut ps: Vec<(String, String)> = pairs.to_vec();
+    if ps.len() <= 2 { ps.sort(); } else { ps.sort_by(|a, b| a.0.cmp(&b.0)); }
+    let v: Vec<String> = ps.iter().map(|(a, b)| format!("{}\u{1}{}", a, b)).collect();
     format!("{}\u{2}{}", name, v.join("\u{3}"))
 }
 
@@ -131,7 +152,7 @@ fn class_info(c: u32) -> &'static ClassInfo {
     };
     let labels = mk(&pairs);
     let mut rp = pairs.clone();
-    rp.reverse();
+    if permutable(&pairs) { rp.reverse(); }
     let rev = mk(&rp);
     let ci: &'static ClassInfo = Box::leak(Box::new(ClassInfo { name, labels, rev, pairs: pairs.clone() }));
     g.1.insert(canon(name, &pairs), c);
@@ -154,12 +175,12 @@ fn build_key(c: u32, v: u32) -> Key {
         2 => {
             let a: Arc<str> = Arc::from(ci.name);
             let mut ps = ci.pairs.clone();
-            ps.reverse();
+            if permutable(&ps) { ps.reverse(); }
             Key::from_parts(SharedString::from(a), owned(&ps))
         }
         3 => {
             let mut ps = ci.pairs.clone();
-            if !ps.is_empty() {
+            if !ps.is_empty() && permutable(&ps) {
                 ps.rotate_left(1);
             }
             Key::from_name(ci.name.to_string()).with_extra_labels(owned(&ps))
@@ -346,7 +367,19 @@ fn table(n: u32, nv: u32) -> String {
             v.push(format!("{}:{}:{}", c, x, build_key(c, x).get_hash()));
         }
     }
-    format!("TABLE {} ; {}", reg.__verif_shard_count(), v.join(" "))
+    // generator sanity (NOT the property): variants of one class must be ==, different classes must not be
+    let mut eqbad = Vec::new();
+    let reps: Vec<Key> = (0..n).map(|c| build_key(c, 0)).collect();
+    for c in 0..n {
+        for x in 0..nv {
+            let kx = build_key(c, x);
+            if kx != reps[c as usize] || reps[c as usize] != kx || class_of(&kx) != c { eqbad.push(format!("{}:{}", c, x)); }
+        }
+        for d in 0..c {
+            if reps[c as usize] == reps[d as usize] { eqbad.push(format!("{}={}", c, d)); }
+        }
+    }
+    format!("TABLE {} ; {} ; {}", reg.__verif_shard_count(), v.join(" "), eqbad.join(" "))
 }
 
 // Free-running stress (no scheduler: real threads race on the shard locks).
